@@ -1,7 +1,7 @@
 (* The comparer rejects (AssertionError) every single difference of a noticed class between a
    named, well-formed netlist value and its copy. *)
-From Coq Require Import String List Arith NArith ZArith Bool Lia.
-From SV Require Import Base.Base Cmp.Comparer Cmp.Diff Proofs.CmpBase Proofs.CmpAccept.
+From Coq Require Import String List Arith NArith ZArith Bool Lia Permutation.
+From SV Require Import Base.Base Cmp.Comparer Cmp.Diff Proofs.CmpBase Proofs.CmpPinSet Proofs.CmpAccept.
 Import ListNotations.
 
 Ltac len_splice :=
@@ -123,11 +123,16 @@ Proof.
   - unfold cmp_pin. cbn [resolve]. apply inner_equiv_bit. assumption.
 Qed.
 
-Lemma cmp_pin_verdict x io ic p :
-  not_asg io -> wf_pin io p = true -> wf_pin ic p = true -> verdict (cmp_pin x x io ic p p).
+Lemma cmp_pin_verdict2 x io ic o c :
+  not_asg io -> wf_pin io o = true -> wf_pin ic c = true -> verdict (cmp_pin x x io ic o c).
 Proof.
-  intros Hna Hp Hp'. destruct p as [q b|[n|] q b| | |]; try discriminate.
+  intros Hna Hp Hp'.
+  destruct o as [q b|[n|] q b| | |]; try discriminate; destruct c as [q' b'|[n'|] q' b'| | |]; try discriminate.
   - unfold cmp_pin. cbn [resolve]. apply inner_equiv_verdict.
+  - destruct (wf_pin_out _ _ _ _ Hp') as [a' [r' [Ef' [Er' [Hin' Hn']]]]].
+    unfold cmp_pin. cbn [resolve]. rewrite Ef', Er'. right. reflexivity.
+  - destruct (wf_pin_out _ _ _ _ Hp) as [a [r [Ef [Er [Hin Hn]]]]].
+    unfold cmp_pin. cbn [resolve]. rewrite Ef, Er. right. reflexivity.
   - destruct (wf_pin_out _ _ _ _ Hp) as [a [r [Ef [Er [Hin Hn]]]]].
     destruct (wf_pin_out _ _ _ _ Hp') as [a' [r' [Ef' [Er' [Hin' Hn']]]]].
     unfold cmp_pin. cbn [resolve]. rewrite Ef, Er, Ef', Er'.
@@ -138,14 +143,52 @@ Proof.
     destruct (_ && _); [apply verdict_check|right; reflexivity].
 Qed.
 
-Lemma cmp_pins_verdict x io ic w :
+Lemma cmp_pin_verdict x io ic p :
+  not_asg io -> wf_pin io p = true -> wf_pin ic p = true -> verdict (cmp_pin x x io ic p p).
+Proof. apply cmp_pin_verdict2. Qed.
+
+(* the key of a well-formed pin whose instance is not named like an assignment *)
+Lemma raw_key_noasg io p : not_asg io -> wf_pin io p = true ->
+  (exists q b, p = PIn q b /\ raw_key p = inr (false, None, q, b)) \/
+  (exists n q b, p = POut (Some n) q b /\ starts_with asg_prefix n = false /\
+                 raw_key p = inr (true, Some n, q, b)).
+Proof.
+  intros Hna Hp. destruct p as [q b|[n|] q b| | |]; try discriminate.
+  - left. exists q, b. split; reflexivity.
+  - right. destruct (wf_pin_out _ _ _ _ Hp) as [a [r [Ef [Er [Hin Hn]]]]].
+    pose proof (not_asg_name io a n Hna Hin Hn) as Hs.
+    exists n, q, b. split; [reflexivity|]. split; [assumption|]. cbn [raw_key inst_key]. rewrite Hs. reflexivity.
+Qed.
+
+Lemma raw_key_noasg_some io p : not_asg io -> wf_pin io p = true -> exists k, raw_key p = inr k.
+Proof.
+  intros Hna Hp. destruct (raw_key_noasg io p Hna Hp) as [[q [b [_ H]]]|[n [q [b [_ [_ H]]]]]]; eauto.
+Qed.
+
+(* the same wire read with two children lists: every pin meets itself *)
+Lemma cmp_wire_same x io ic w :
   not_asg io -> forallb (wf_pin io) w = true -> forallb (wf_pin ic) w = true ->
-  verdict (cmp_pins x x io ic w w).
+  cmp_wire x x io ic w w = zip_pins x x io ic w w.
+Proof.
+  intros Hna H H'. rewrite forallb_forall in H, H'. apply cmp_wire_zip.
+  - intros c Hc. rewrite (pin_key_raw x ic c (H' c Hc)). apply (raw_key_noasg_some io); auto.
+  - apply Forall2_same. intros p Hp. rewrite (pin_key_raw x io p (H p Hp)), (pin_key_raw x ic p (H' p Hp)).
+    reflexivity.
+Qed.
+
+Lemma zip_pins_verdict x io ic w :
+  not_asg io -> forallb (wf_pin io) w = true -> forallb (wf_pin ic) w = true ->
+  verdict (zip_pins x x io ic w w).
 Proof.
   intro Hna. induction w as [|p w IH]; cbn; intros H H'; [left; reflexivity|].
   apply andb_true_iff in H as [H1 H2]. apply andb_true_iff in H' as [H1' H2'].
   apply verdict_seq; [apply cmp_pin_verdict; assumption|apply IH; assumption].
 Qed.
+
+Lemma cmp_wire_verdict x io ic w :
+  not_asg io -> forallb (wf_pin io) w = true -> forallb (wf_pin ic) w = true ->
+  verdict (cmp_wire x x io ic w w).
+Proof. intros Hna H H'. rewrite cmp_wire_same by assumption. apply zip_pins_verdict; assumption. Qed.
 
 Lemma cmp_wires_verdict x io ic ws :
   not_asg io -> forallb (forallb (wf_pin io)) ws = true -> forallb (forallb (wf_pin ic)) ws = true ->
@@ -153,8 +196,7 @@ Lemma cmp_wires_verdict x io ic ws :
 Proof.
   intro Hna. induction ws as [|w ws IH]; cbn; intros H H'; [left; reflexivity|].
   apply andb_true_iff in H as [H1 H2]. apply andb_true_iff in H' as [H1' H2'].
-  apply verdict_seq; [|apply IH; assumption].
-  unfold cmp_wire. apply verdict_seq; [apply verdict_check|apply cmp_pins_verdict; assumption].
+  apply verdict_seq; [apply cmp_wire_verdict; assumption|apply IH; assumption].
 Qed.
 
 Lemma cmp_cable_verdict x io ic c :
@@ -164,14 +206,82 @@ Proof.
   repeat (apply verdict_seq; [apply verdict_check|]). apply cmp_wires_verdict; assumption.
 Qed.
 
-(* ---------- wires and cables across a splice ---------- *)
-Lemma cmp_pins_splice x io P1 p p' P2 :
-  (forall i, In i io -> asg_ok i) -> forallb (wf_pin io) P1 = true ->
-  cmp_pins x x io io (P1 ++ p :: P2) (P1 ++ p' :: P2) =
-  seq (cmp_pin x x io io p p') (cmp_pins x x io io P2 P2).
+(* ---------- an accepted pair of pins is the same designator; an accepted wire carries the
+   same pins ---------- *)
+Lemma check_accept b : check b = Accept <-> b = true.
+Proof. destruct b; cbn; split; congruence. Qed.
+
+Lemma inner_equiv_sound bo qo xo bc qc xc :
+  inner_equiv bo qo xo bc qc xc = Accept -> bo = bc /\ qo = qc.
 Proof.
-  intro Hio. induction P1 as [|z P1 IH]; cbn; intro H; [reflexivity|].
-  apply andb_true_iff in H as [H1 H2]. rewrite cmp_pin_refl by assumption. cbn. apply IH. assumption.
+  unfold inner_equiv. intro H. apply seq_accept in H as [H1 H2].
+  apply check_accept in H1, H2. apply Nat.eqb_eq in H1. apply andb_true_iff in H2 as [H2 _].
+  apply oname_eqb_spec in H2. split; assumption.
+Qed.
+
+Lemma cmp_pin_sound xo xc io ic po pc :
+  not_asg io -> wf_pin io po = true -> cmp_pin xo xc io ic po pc = Accept -> pc = po.
+Proof.
+  intros Hna Hw Hc. destruct po as [q b|[n|] q b| | |]; try discriminate.
+  - (* a pin of a port of the definition *)
+    unfold cmp_pin in Hc. cbn [resolve] in Hc.
+    destruct pc as [q' b'|[n'|] q' b'|n' rd rl q' b'| |]; cbn [resolve] in Hc; try discriminate.
+    + apply inner_equiv_sound in Hc as [-> ->]. reflexivity.
+    + destruct (find (has_name i_name n') ic) as [i'|]; [|discriminate].
+      destruct (i_ref i'); discriminate.
+  - (* a pin of a child *)
+    destruct (wf_pin_out _ _ _ _ Hw) as [i [r [Ef [Er [Hin Hn]]]]].
+    pose proof (not_asg_name io i n Hna Hin Hn) as Hasg.
+    unfold cmp_pin in Hc. cbn [resolve] in Hc. rewrite Ef, Er in Hc.
+    destruct pc as [q' b'|[n'|] q' b'|n' rd rl q' b'| |]; cbn [resolve] in Hc; try discriminate.
+    + destruct (find (has_name i_name n') ic) as [i'|]; [|discriminate].
+      destruct (i_ref i') as [r'|]; [|discriminate].
+      apply seq_accept in Hc as [H1 H2].
+      cbn [op_bit op_port op_ref] in H2. apply inner_equiv_sound in H2 as [-> ->].
+      unfold inst_equiv in H1. cbn [op_inst] in H1. rewrite Hasg in H1.
+      apply seq_accept in H1 as [H1 _]. apply check_accept in H1. apply str_eqb_spec in H1.
+      subst n'. reflexivity.
+    + apply seq_accept in Hc as [H1 _]. unfold inst_equiv in H1. cbn [op_inst] in H1.
+      rewrite Hasg in H1. discriminate.
+    + apply seq_accept in Hc as [H1 _]. unfold inst_equiv in H1.
+      apply seq_accept in H1 as [_ H1]. cbn [op_ref op_parent fst snd] in H1.
+      destruct (oname_eqb (fst r) rd && oname_eqb (snd r) rl); [|discriminate].
+      destruct (fst xo); discriminate.
+Qed.
+
+(* the pins of an accepted wire are those of the original wire, in some order *)
+Lemma cmp_wire_sound xo xc io ic wo wc : not_asg io -> forallb (wf_pin io) wo = true ->
+  cmp_wire xo xc io ic wo wc = Accept -> Permutation wo wc.
+Proof.
+  intros Hna Hw Hc. destruct (cmp_wire_matched _ _ _ _ _ _ Hc) as [wm [Hp HF]].
+  assert (wm = wo); [|subst; apply Permutation_sym; assumption].
+  clear Hp Hc. revert Hw. induction HF as [|o c wo' wm' Hoc HF' IH]; intro Hw; [reflexivity|].
+  cbn in Hw. apply andb_true_iff in Hw as [Hw1 Hw2].
+  rewrite (cmp_pin_sound _ _ _ _ _ _ Hna Hw1 Hoc), (IH Hw2). reflexivity.
+Qed.
+
+Lemma pin_diff_neq m p p' : pin_diff m p p' -> p <> p'.
+Proof. destruct 1; intro Heq; inversion Heq; congruence. Qed.
+
+(* ---------- wires and cables across a splice ---------- *)
+(* one pin replaced by a different one: whatever the order, the pins no longer are the same *)
+Lemma cmp_wire_splice_reject m x io P1 p p' P2 :
+  (forall i, In i io -> asg_ok i) -> not_asg io ->
+  forallb (wf_pin io) (P1 ++ p :: P2) = true -> wf_pin io p' = true -> pin_diff m p p' ->
+  cmp_wire x x io io (P1 ++ p :: P2) (P1 ++ p' :: P2) = Reject.
+Proof.
+  intros Hio Hna Hw Hp' Hd.
+  assert (Hw' : forallb (wf_pin io) (P1 ++ p' :: P2) = true).
+  { rewrite forallb_app in *. cbn in *. apply andb_true_iff in Hw as [H1 H2].
+    apply andb_true_iff in H2 as [_ H2]. rewrite H1, Hp', H2. reflexivity. }
+  assert (Hv : verdict (cmp_wire x x io io (P1 ++ p :: P2) (P1 ++ p' :: P2))).
+  { rewrite forallb_forall in Hw, Hw'. apply cmp_wire_verdict_gen.
+    - intros o Ho. apply pin_key_wf; auto.
+    - intros c Hc. apply pin_key_wf; auto.
+    - intros o c Ho Hc. apply cmp_pin_verdict2; auto. }
+  destruct Hv as [Ha|Hr]; [exfalso|assumption].
+  apply cmp_wire_sound in Ha; [|assumption|assumption].
+  apply (perm_splice_same pinref_eq_dec) in Ha. exact (pin_diff_neq m p p' Hd Ha).
 Qed.
 
 Lemma cmp_wires_splice x io W1 w w' W2 :
@@ -180,8 +290,8 @@ Lemma cmp_wires_splice x io W1 w w' W2 :
   seq (cmp_wire x x io io w w') (cmp_wires x x io io W2 W2).
 Proof.
   intro Hio. induction W1 as [|z W1 IH]; cbn; intro H; [reflexivity|].
-  apply andb_true_iff in H as [H1 H2]. unfold cmp_wire at 1.
-  rewrite Nat.eqb_refl, cmp_pins_refl by assumption. cbn. apply IH. assumption.
+  apply andb_true_iff in H as [H1 H2].
+  rewrite cmp_wire_refl by assumption. cbn. apply IH. assumption.
 Qed.
 
 Lemma forallb_app_l {A} (g : A -> bool) l1 l2 : forallb g (l1 ++ l2) = true -> forallb g l1 = true.
@@ -210,10 +320,7 @@ Proof.
     rewrite cmp_wires_splice by (try assumption; eapply forallb_app_l; eassumption).
     assert (Hwf : forallb (wf_pin io) w = true) by (eapply forallb_app_mid; eassumption).
     inversion Hw as [P1 p p' P2 [Hpd Hp'] HP HP']. rewrite <- HP in Hwf.
-    unfold cmp_wire. rewrite (length_splice P1 p p' P2), Nat.eqb_refl. cbn [check seq].
-    rewrite cmp_pins_splice by (try assumption; eapply forallb_app_l; eassumption).
-    rewrite (pin_diff_reject m x io p p'); try assumption; [reflexivity|].
-    eapply forallb_app_mid; eassumption.
+    rewrite (cmp_wire_splice_reject m x io P1 p p' P2); try assumption. reflexivity.
 Qed.
 
 (* ---------- instances ---------- *)
